@@ -111,8 +111,8 @@ class Ob:
                     if rebound or aliased:
                         shim.append(n)
                 if shim:
-                    n_req = len([n for n in req.get(q, []) if n not in ("self", "cls")])
-                    drifted[f.name] = ("shim", shim, n_req, f"`{f.name}` now takes {shim} optionally and fills it in from its other argument(s)")
+                    req_names = [n for n in req.get(q, []) if n not in ("self", "cls")]
+                    drifted[f.name] = ("shim", shim, req_names, f"`{f.name}` now takes {shim} optionally and fills it in from its other argument(s)")
             cx.model.__dict__["_drifted"] = drifted
         if not drifted:
             return None
@@ -129,7 +129,7 @@ class Ob:
                 if nm not in drifted:
                     continue
                 kind, params, extra, text = drifted[nm]
-                if kind == "shim" and not any(isinstance(a, _ast.Starred) for a in n.args) and len(n.args) + len([k for k in n.keywords if k.arg]) < extra:
+                if kind == "shim" and not any(isinstance(a, _ast.Starred) for a in n.args) and len(n.args) + len([k for k in n.keywords if k.arg in extra]) < len(extra):
                     return text
                 if kind == "renamed" and any(k.arg is not None and k.arg not in extra for k in n.keywords):
                     return text
